@@ -288,14 +288,14 @@ def enum_cases(n, variant, lo, hi):
 
 def shards(tier):
     out = []
-    nr, per = (8, 14) if tier == "quick" else (12, 400)
+    nr, per = (8, 14) if tier == "quick" else (10, 150)
     side = 8 if tier == "quick" else 10
     for i in range(nr):
         out.append(("rand#%d" % i, lambda ctx: drive_hypothesis(ctx, body_dask, dask_cases(side), per, shrink=(tier == "thorough"))))
     for i in range(2 if tier == "quick" else 4):
-        out.append(("elongated#%d" % i, lambda ctx: drive_hypothesis(ctx, body_dask, elongated_cases(), per if tier == "quick" else 300, shrink=(tier == "thorough"))))
+        out.append(("elongated#%d" % i, lambda ctx: drive_hypothesis(ctx, body_dask, elongated_cases(), per if tier == "quick" else 100, shrink=(tier == "thorough"))))
     for i in range(3 if tier == "quick" else 4):
-        out.append(("edge#%d" % i, lambda ctx: drive_hypothesis(ctx, body_dask, edge_cases(), per if tier == "quick" else 300, shrink=(tier == "thorough"))))
+        out.append(("edge#%d" % i, lambda ctx: drive_hypothesis(ctx, body_dask, edge_cases(), per if tier == "quick" else 100, shrink=(tier == "thorough"))))
     if tier == "quick":
         plan = [(3, 0, 1), (3, 1, 1), (4, 0, 3)]
     else:
